@@ -127,8 +127,10 @@ struct LockEngine : Engine {
 		}
 	}
 
-	void on_access(int task, const void *addr, size_t n, bool write, bool atomic) override {
-		if (cfg > CFG_SIMPLE || !atomic || !write || task == 0) return;
+	// ticket order: the order in which tasks draw their ticket = the order of their first successful atomic read-modify-write
+	// on the lock object inside lock() (plain stores to the lock, e.g. a contention hint, do not count)
+	void on_rmw(int task, const void *addr, size_t n) override {
+		if (cfg > CFG_SIMPLE || task == 0) return;
 		if (ltype != LT_TICKET) return;
 		for (int i = 0; i < nlocks; i++) {
 			if ((const char *)addr >= (const char *)locks[i] && (const char *)addr < (const char *)locks[i] + sut_lock_size(ltype)) {
@@ -141,7 +143,7 @@ struct LockEngine : Engine {
 	static void cs_body(void *p) {
 		CsArg *a = (CsArg *)p; LockEngine *e = a->e; int lk = a->lk;
 		if (++e->in_cs[lk] != 1) violation("mutual_exclusion", "task %d entered the critical section of lock %d while task %d is inside", a->task, lk, e->holder[lk]);
-		if (e->ltype == LT_TICKET) {
+		if (e->ltype == LT_TICKET && e->ticketed[a->task][lk]) { // (an acquisition without any RMW cannot be placed in the order: not judged)
 			if (e->tickets[lk].empty() || e->tickets[lk].front() != a->task)
 				violation("ticket_order", "task %d acquired ticket lock %d but the oldest ticket belongs to task %d", a->task, lk, e->tickets[lk].empty() ? 0 : e->tickets[lk].front());
 			e->tickets[lk].pop_front(); e->ticketed[a->task][lk] = false;
